@@ -121,6 +121,11 @@ def t_fail_on_neg(x=0, *a, **k):
     return x * x
 
 
+def t_slow_sq(x=0, *a, **k):
+    time.sleep(0.15)
+    return x * x
+
+
 def t_swallow_on_neg(x=0, *a, **k):
     """answers non-negative inputs; on a negative one it never ends and swallows every exception (only a forced kill stops it)"""
     if x < 0:
